@@ -96,10 +96,10 @@ def _raw_value_job(item):
     return name, src, fw.run_script({"src": src, "passes": 4}), lang.run_cpython(src, 4, [])
 
 
-def raw_values(run) -> None:
+def raw_values(run, scripts=None) -> None:
     import concurrent.futures as cf
     with cf.ProcessPoolExecutor(max_workers=2) as ex:
-        outs = list(ex.map(_raw_value_job, sorted(RAW_VALUE_SCRIPTS.items())))
+        outs = list(ex.map(_raw_value_job, sorted((scripts or RAW_VALUE_SCRIPTS).items())))
     for name, src, r, py in outs:
         run.count("raw:" + name)
         if r["transpile"] != "accept" or r.get("compile") != "ok":
@@ -111,9 +111,9 @@ def raw_values(run) -> None:
             run.violation(f"{name}: the firmware prints {got[:16]}, CPython prints {want[:16]}", {"raw": name, "script": src})
 
 
-def replay(path: str) -> int:
+def replay_raw(path: str, scripts, prop: str) -> int:
     r0 = json.load(open(path))
-    if "raw" in r0:
+    if True:
         class _R:
             def __init__(self):
                 self.violations, self.notes = [], []
@@ -123,12 +123,18 @@ def replay(path: str) -> int:
                 if (rep or {}).get("raw") == r0["raw"]:
                     self.violations.append(what)
         rr = _R()
-        raw_values(rr)
+        raw_values(rr, scripts)
         print(json.dumps(rr.violations))
         if rr.violations:
-            print(f"VIOLATION property=C01 replay={path}")
+            print(f"VIOLATION property={prop} replay={path}")
             return 1
         return 0
+
+
+def replay(path: str) -> int:
+    r0 = json.load(open(path))
+    if "raw" in r0:
+        return replay_raw(path, RAW_VALUE_SCRIPTS, "C01")
     r = json.load(open(path))
     p = r["program"]
     res = lang.three_way([p])[p["id"]]
